@@ -97,6 +97,7 @@ def run(ctx):
             except Exception as ex:
                 ctx.violation("depgraph-raised", {"source": src, "raised": type(ex).__name__ + ":" + str(ex)[:200]})
                 continue
+            sols.sort(key=lambda s_: [lk.key for lk in s_.history])
             for sol in sols[:6]:
                 hist = list(reversed(sol.history))          # execution order; the last one is the queried block
                 try:
@@ -116,7 +117,7 @@ def run(ctx):
                 sizes["IRDst"] = 32
                 envs = Q.make_envs(rng, sizes, 6, REGS32, ())
                 items.append({"t": "slice", "path": full, "vals": jvals, "envs": envs})
-                meta.append(("implicit-values" if implicit else "explicit-slice", src, J.loc_name(target.loc_key), line))
+                meta.append(("implicit-values" if implicit else "explicit-slice", src, J.loc_name(target.loc_key), line, sorted(e.name for e in elems)))
                 alt.append({"t": "slice", "path": without_omitted_stores(ircfg, hist, line, sol), "vals": jvals, "envs": envs})
                 if implicit:
                     cons = z3.And(*sol._solver.assertions()) if sol._solver.assertions() else z3.BoolVal(True)
@@ -126,8 +127,8 @@ def run(ctx):
                     undecided += len(envs) - len(keep)
                     if keep:
                         items.append({"t": "pathcond", "path": full, "w": 32, "sat": [s_ for _, s_ in keep], "envs": [e for e, _ in keep]})
-                        meta.append(("implicit-constraints", src, J.loc_name(target.loc_key), line))
-                        alt.append(None)
+                        meta.append(("implicit-constraints", src, J.loc_name(target.loc_key), line, sorted(e.name for e in elems)))
+                        alt.append(dict(items[-1], path=alt[-1]["path"]))
     verdicts = X.judge(ctx, items, label="c39", module="IRJudge", chunk=500)
     counts = {}
     # known finding: a load whose cell was stored earlier through a syntactically different address (ESP-relative after a push,
@@ -145,10 +146,10 @@ def run(ctx):
             ctx.known("untracked-aliasing-store", "%s of %s line %d in %r" % (v, mt[2], mt[3], mt[1][:120]))
             continue
         if v.startswith("bad"):
-            ctx.violation("dependency-solution-unfaithful", {"what": mt[0], "source": mt[1], "target_block": mt[2], "line": mt[3], "verdict": v})
+            ctx.violation("dependency-solution-unfaithful", {"what": mt[0], "source": mt[1], "target_block": mt[2], "line": mt[3], "elements": mt[4], "verdict": v})
     ctx.traces += len(items)
     ctx.evaluations += sum(len(i["envs"]) for i in items)
-    ctx.distinct = set(meta)
+    ctx.distinct = set(mt[:4] for mt in meta)
     for k in (0, len(meta) // 2, len(meta) - 1):
         ctx.sample({"what": meta[k][0], "source": meta[k][1][:300], "target": meta[k][2], "line": meta[k][3], "tlc_verdict": verdicts[k]})
     ctx.notes["verdicts"] = counts
